@@ -12,11 +12,36 @@ use std::time;
 use tokio::time::timeout;
 use triggered::Listener;
 
+use bitcoin::BlockHash;
 use lightning::chain;
 use lightning_block_sync::poll::{ChainTip, Poll, ValidatedBlockHeader};
 use lightning_block_sync::{BlockSourceErrorKind, Cache, SpvClient};
 
 use crate::dbm::DBM;
+
+/// Keeps track of the last block all the chain listeners have processed.
+///
+/// A poll may stop half-way to the best tip (a block that cannot be downloaded), in which case the tip reported by the
+/// poll is NOT what the tower has processed. Registered as the **last** listener, the [TipTracker] sees a block once
+/// everybody else is done with it, so the [ChainMonitor] can persist what has really been processed.
+pub struct TipTracker(pub Arc<Mutex<BlockHash>>);
+
+impl chain::Listen for TipTracker {
+    fn filtered_block_connected(
+        &self,
+        header: &bitcoin::block::Header,
+        _: &chain::transaction::TransactionData,
+        _: u32,
+    ) {
+        *self.0.lock().unwrap() = header.block_hash();
+    }
+
+    fn block_disconnected(&self, _: &bitcoin::block::Header, _: u32) {
+        // Nothing to do. What the components note down when a block is disconnected is only acted upon (and persisted) when
+        // the first block of the new chain is connected, so until that happens a restart has to start over from the tip
+        // that was being disconnected.
+    }
+}
 
 /// Component in charge of monitoring the chain for new blocks.
 ///
@@ -41,6 +66,8 @@ where
     shutdown_signal: Listener,
     /// A flag that indicates wether bitcoind is reachable or not.
     bitcoind_reachable: Arc<(Mutex<bool>, Condvar)>,
+    /// The last block processed by all the listeners, if a [TipTracker] is among them.
+    processed_tip: Option<Arc<Mutex<BlockHash>>>,
 }
 
 impl<'a, P, C, L> ChainMonitor<'a, P, C, L>
@@ -66,7 +93,15 @@ where
             polling_delta: time::Duration::from_secs(polling_delta_sec as u64),
             shutdown_signal,
             bitcoind_reachable,
+            processed_tip: None,
         }
+    }
+
+    /// Makes the [ChainMonitor] persist, as last known block, the block a [TipTracker] has seen last instead of the
+    /// tip a poll was aiming at.
+    pub fn track_processed_tip(mut self, processed_tip: Arc<Mutex<BlockHash>>) -> Self {
+        self.processed_tip = Some(processed_tip);
+        self
     }
 
     /// Polls the best chain tip from bitcoind. Serves the data to its listeners (through [chain::Listen]) and logs data about the polled tips.
@@ -80,10 +115,16 @@ where
                     ChainTip::Better(new_best) => {
                         log::debug!("Updating best tip: {}", new_best.header.block_hash());
                         self.last_known_block_header = new_best;
+                        // The poll may not have made it all the way to the new best tip: what is persisted is where
+                        // the listeners really are, so a restart resumes from there.
+                        let processed = match &self.processed_tip {
+                            Some(tip) => *tip.lock().unwrap(),
+                            None => new_best.header.block_hash(),
+                        };
                         self.dbm
                             .lock()
                             .unwrap()
-                            .store_last_known_block(&new_best.header.block_hash())
+                            .store_last_known_block(&processed)
                             .unwrap();
                     }
                     ChainTip::Worse(worse) => {
